@@ -81,22 +81,23 @@ theorem _root_.KafVerif.C06.next_beyond_acked {cfg : Cfg} {s : State} {m : Mem} 
 def batchOf : Pc → Option Batch
   | .appended b => some b
   | .up _ b _ _ _ => some b
+  | .failed b => some b      -- offsets were assigned, then `prepareFlush` failed (unreachable in `fixed`: `C01.build_never_fails_reachable`)
   | _ => none
 
 /-- … and that is the base offset `AppendBatch` hands out: a new batch never overlaps an
 acknowledged batch or an offset below the watermark, before or after any number of restarts. -/
-theorem _root_.KafVerif.C06.append_fresh {cfg : Cfg} {s s' : State} {t n : Nat} (h : Reachable fixed cfg s)
-    (hs : step fixed s (.append t n) = some s') :
+theorem _root_.KafVerif.C06.append_fresh {cfg : Cfg} {s s' : State} {t n : Nat} {mc : Int} {len : Nat} (h : Reachable fixed cfg s)
+    (hs : step fixed s (.append t n mc len) = some s') :
     ∃ b, batchOf (s'.pcs t) = some b ∧ s.hw ≤ b.base ∧ ∀ a ∈ s.acked, a.endOff ≤ b.base := by
   simp only [step] at hs
   split at hs
   case h_2 => simp at hs
   case h_1 m hmem hpc =>
     obtain ⟨h1, h2⟩ := KafVerif.C06.next_beyond_acked h hmem
-    by_cases hn : 1 ≤ n
+    by_cases hn : 1 ≤ n ∧ 8 ≤ len
     case neg => simp [hn] at hs
-    simp only [hn, if_true] at hs
-    refine ⟨{ id := s.nextId, base := m.next, n := n }, ?_, h2, h1⟩
+    simp only [hn, and_self, if_true] at hs
+    refine ⟨{ id := s.nextId, base := m.next, n := n, mc := mc, len := len }, ?_, h2, h1⟩
     split at hs
     · split at hs <;> (simp only [Option.some.injEq] at hs; subst hs; simp [batchOf, setPc])
     · simp only [Option.some.injEq] at hs; subst hs; simp [batchOf, setPc]
@@ -104,7 +105,7 @@ theorem _root_.KafVerif.C06.append_fresh {cfg : Cfg} {s s' : State} {t n : Nat} 
 /-! ### pre-fix witness and non-vacuity -/
 
 def crashAfterLostAck : List Ev :=
-  [.restore, .append 0 1, .append 1 1, .flush 0, .flush 1, .seg 0 true, .idx 0 false, .finish 0,
+  [.restore, .wf 0 1, .wf 1 1, .flush 0, .flush 1, .seg 0 true, .idx 0 false, .finish 0,
    .wake 1, .readNext 1, .pub 1 true, .crash, .restore]
 
 /-- after the restart: the log is not open (restore failed) or some acknowledged batch is unreadable -/
@@ -122,8 +123,8 @@ theorem _root_.KafVerif.C06.old_violates : lostAfterRestart old crashAfterLostAc
 /-- crash with an orphan segment (segment uploaded, index upload still pending) after an earlier
 acknowledged batch: a reachable state to which `restart` applies, with a leftover object -/
 def orphanEvs : List Ev :=
-  [.restore, .append 0 2, .flush 0, .seg 0 true, .idx 0 true, .finish 0, .pub 0 true,
-   .append 1 1, .flush 1, .seg 1 true]
+  [.restore, .wf 0 2, .flush 0, .seg 0 true, .idx 0 true, .finish 0, .pub 0 true,
+   .wf 1 1, .flush 1, .seg 1 true]
 
 example : ∃ s c r, Reachable fixed ⟨0, 0⟩ s ∧ step fixed s .crash = some c ∧ step fixed c .restore = some r ∧
     s.acked ≠ [] ∧ (s.segs 2).isSome = true ∧ (s.idxs 2).isSome = false := by
